@@ -70,6 +70,15 @@ def gen_text(rng, risky_p, maxlen=24):
     return s or 'x'
 
 
+def gen_value(rng, risky_p, fmt_hint=None, multiline_p=0.0):
+    """Metadata value: usually one line; with multiline_p two to four lines (no leading/trailing blanks on any line; a value
+    line never starts with a framing token)."""
+    if rng.random() >= multiline_p:
+        return gen_text(rng, risky_p, 40)
+    lines = [gen_text(rng, risky_p, 24) for _ in range(rng.choice([2, 2, 3, 4]))]
+    return '\n'.join(lines)
+
+
 def gen_key(rng, risky_p):
     s = ''.join(rng.choice('abcdefghijklmnopqrstuvwxyzABCDEFGHIJKLMNOPQRSTUVWXYZ0123456789_-.') for _ in range(rng.randrange(1, 12)))
     if rng.random() < risky_p:
@@ -114,7 +123,7 @@ def gen_mol_spec(rng, cfg, small=False):
     if rng.random() < cfg.get('name_p', 0.6):
         spec['name'] = gen_text(rng, cfg.get('risky_p', 0.1), 40)
     if rng.random() < cfg.get('meta_p', 0.6):
-        spec['meta'] = [[gen_key(rng, cfg.get('risky_p', 0.1)), gen_text(rng, cfg.get('risky_p', 0.1), 40)]
+        spec['meta'] = [[gen_key(rng, cfg.get('risky_p', 0.1)), gen_value(rng, cfg.get('risky_p', 0.1), None, cfg.get('multiline_p', 0.0))]
                         for _ in range(rng.choice([1, 1, 2, 3]))]
     return spec
 
@@ -130,7 +139,7 @@ def gen_record_spec(rng, cfg, allow_rxn):
         if rng.random() < cfg.get('name_p', 0.6):
             spec['name'] = gen_text(rng, cfg.get('risky_p', 0.1), 40)
         if rng.random() < cfg.get('meta_p', 0.6):
-            spec['meta'] = [[gen_key(rng, cfg.get('risky_p', 0.1)), gen_text(rng, cfg.get('risky_p', 0.1), 40)]
+            spec['meta'] = [[gen_key(rng, cfg.get('risky_p', 0.1)), gen_value(rng, cfg.get('risky_p', 0.1), None, cfg.get('multiline_p', 0.0))]
                             for _ in range(rng.choice([1, 2, 3]))]
         return spec
     return gen_mol_spec(rng, cfg)
